@@ -112,6 +112,28 @@ def pos_key(g, v):
     return addr_base(g, v)
 
 
+def forward_counter(g, key):
+    """index value is a loop counter: a phi all of whose incoming values are the constant 0, the counter itself, or the counter plus one"""
+    if key is None or key[0] != 'i': return False
+    ph = g.insts.get(key[1])
+    if ph is None or ph.op != 'phi': return False
+    seen = set()
+    def ok(v, depth=0):
+        if const_of(v) == 0: return True
+        k = vk(v)
+        if k == key: return True
+        if k is None or k[0] != 'i' or depth > 8: return False
+        if k in seen: return True
+        seen.add(k)
+        ii = g.insts.get(k[1])
+        if ii is None: return False
+        if ii.op == 'add' and const_of(ii.ops[1]) == 1: return ok(ii.ops[0], depth + 1)
+        if ii.op == 'phi': return all(ok(x, depth + 1) for x, _ in ii.d['incoming'])
+        if ii.op in ('zext', 'sext', 'trunc'): return ok(ii.ops[0], depth + 1)
+        return False
+    return all(ok(v) for v, _ in ph.d['incoming'])
+
+
 def skip_loops(f):
     """[(header block, phi inst, latch block, test load)]: while (nonascii(*c)) ++c;"""
     out = []
@@ -589,6 +611,12 @@ def cursor_safety(ctx, rep):
                             rep.check(off == 1 and nn, 'read of s[i+%d] at %s: s[i] known non-NUL' % (off, i.loc), i.loc,
                                       '%s: read of s[i+%d] past a byte not known non-NUL' % (base_name(g.name), off), detail={'offset': off, 'known_non_nul': nn},
                                       key='CUR-1|%s|read of s[i+%d]|%s' % (base_name(g.name), off, i.loc.split(':')[-1]))
+            for ik, bases in sorted(idx_uses.items(), key=str):
+                nadv += 1
+                fc = forward_counter(g, ik)
+                site = next((i for i in g.all_insts() if i.op == 'load' and i.d['bits'] == 8 and pos_key(g, i.ops[0])[0] in [('x', b_, ik) for b_ in bases]), None)
+                rep.check(fc, 'string indexed by a forward counter (starts at 0, steps by 1): every index reached has only non-NUL bytes before it', site.loc if site else loc_gc(g),
+                          '%s: input string read at an index that is not a forward counter from 0' % base_name(g.name), detail={'index': str(ik)}, key='CUR-1|%s|index shape|%s' % (base_name(g.name), str(ik)))
             for i in g.all_insts():
                 if i.op == 'add' and const_of(i.ops[1]) == 1 and vk(i.ops[0]) in idx_uses:
                     # an increment that feeds the index back (loop-carried)
